@@ -228,6 +228,8 @@ def check_inside_one(get, entered, rec, repl, target, viol, via):
         (".asynq().value()", lambda: get().asynq(*given[0], **given[1]).value()),
         ("yield .asynq()", lambda: yielder(get(), given[0], given[1])),
         ("asyncio.run(.asyncio())", lambda: asyncio.run(get().asyncio(*given[0], **given[1]))),
+        # convention 3 inside convention 4: the task that yields .asynq() is itself driven by an event loop
+        ("yield .asynq() from a task run by asyncio", lambda: asyncio.run(yielder.asyncio(get(), given[0], given[1]))),
     ]
     for name, fn in convs:
         before = len(calls_so_far())
